@@ -435,6 +435,28 @@ def run_C11(case):
                 res.stats["restart_variants"] += 1
             res.extra["positions_enumerated"] = n + 1
 
+            # ---- a restart between two queries ---------------------------------
+            # close/reopen is also a position between read requests: the answers after it are
+            # those of the never-closed index asked the same questions in the same order
+            nq = len(base_final)
+            rq = random.Random(case.get("seed", 0) ^ 0x5EED)
+            between = [i + 1 for i, (name, _) in enumerate(base_final) if name.startswith("page_links(source)") or name.startswith("count_links (between")]
+            ks = set(rq.randrange(1, nq) for _ in range(2)) if nq > 2 else set()
+            ks.update(rq.sample(between, min(3, len(between))))
+            for k in sorted(ks):
+                v = Track(cfg, backend)
+                tracks.append(v)
+                for i in range(n):
+                    v.apply(ops[i])
+                fin = observe(lambda: v.sut.traph, final_desc, interrupt=(k, v.reopen))
+                res.evals["C11.restart_between_queries"] += 1
+                res.stats["reopen"] += 1
+                diff = first_difference(base_final, fin)
+                if diff:
+                    raise Fail("C11.restart_between_queries", "close/reopen after question %d (%s) of %d: %s: never-closed %s, restarted %s" % (k, base_final[k - 1][0][:60], nq, diff[0], short(diff[1]), short(diff[3])))
+                v.close()
+                tracks.remove(v)
+
             # ---- clear at seeded positions vs a fresh index ------------------
             for cl in case.get("clears", []):
                 pos = min(cl["pos"], n)
